@@ -105,8 +105,10 @@ def replay(case):
         return []
     out = []
 
+    _basis = [[make_fn(f) for f in mode] for mode in cfg['basis']]
+
     def basis():
-        return [[make_fn(f) for f in mode] for mode in cfg['basis']]
+        return _basis        # one list of function objects for all calls, as a user would build it
 
     variants = [('hosvd', lambda xs, ys: tedmd.amuset_hosvd(x, xs, ys, basis(), threshold=1e-12)),
                 # the same (integer-valued) snapshots stored with an integer dtype
